@@ -15,6 +15,7 @@ type PropSpec struct {
 	Thorough    []string
 	Flow        []string // additional flow/frame engines: "ct", "globals", "fresh"
 	Ground      bool     // include the ground obligations about the constant tables
+	Tags        []string // extra build tags for loading /repo (hooks needed by this property only)
 	Lemmas      []string // named lemmas (contract-file `lemma` declarations) that must be discharged
 	Trusted     []string
 	Assumptions []string
@@ -150,7 +151,7 @@ var props = map[string]*PropSpec{
 		Assumptions: []string{"memory is abstracted to one secrecy bit per allocation site / parameter (sound over-approximation); x25519.X25519's generic path branches on whether the output is all-zero (a deliberate declassification) and is outside the property's observation points"},
 	},
 	"C03": {
-		ID: "C03", Cone: []ConeItem{edAll, geAll, modmAll, curveAll}, Quick: twoLayouts, Thorough: allSix, Technique: techGovc + "; C03 itself is a lemma over contracts: the verif-tagged function verifRoundTrip (derive key, sign, verify) is checked against the contracts of NewKeyFromSeed, sign and verify only, with intermediate lemma steps",
+		ID: "C03", Tags: []string{"verifhooks"}, Cone: []ConeItem{edAll, geAll, modmAll, curveAll}, Quick: twoLayouts, Thorough: allSix, Technique: techGovc + "; C03 itself is a lemma over contracts: the verif-tagged function verifRoundTrip (derive key, sign, verify) is checked against the contracts of NewKeyFromSeed, sign and verify only, with intermediate lemma steps",
 		Trusted: append([]string{
 			"axioms used by the lemma (contract file): RTDEC (an encoded point decodes to itself, B11), RTMODL/RTNEUT (B has order exactly L, M4), RTSUB/GDBL and one explicit instance of RTLC (arithmetic of multiples of B, M2), RTCLAMP (L does not divide 8a for a clamped scalar: 8a = kL would need 64 | k < 64) and RTCOP (L odd: L | 8x implies L | x)",
 			"the excluded case of the property (nonce hash = 0 mod L) is the precondition of verifRoundTrip",
